@@ -20,6 +20,7 @@ Act(e) == CASE e.act = "k2e_file" -> K2EFile(e.p, e.out, OUTE)
             [] e.act = "dump"     -> Dump(e.p)
             [] e.act = "dump_opts" -> DumpOpts(e.p)
             [] e.act = "dump_empty" -> DumpEmpty(e.p)
+            [] e.act = "redump" -> Redump(e.p)
 TInitEv == /\ l = 1 /\ Ev.ev = "init" /\ l' = 2 /\ UNCHANGED <<tid, fails>>
            /\ fs' = FsOf(Ev.snap) /\ last' = NoAct
 TAct == /\ l > 1 /\ l <= Len(Log[tid]) /\ Ev.ev = "act" /\ l' = l + 1 /\ UNCHANGED tid
